@@ -18,7 +18,7 @@ Task: produce TWO different changes (mutant a and mutant b; make them different 
  (3) needs something SPECIFIC to manifest — a particular interleaving, a crash/fault at a particular point, a multi-step sequence of operations, an unusual input, or two cooperating sites that each look fine alone — NOT something ordinary use exposes at once;
  (4) comes with a demonstration: a Go test file (or small program) that FAILS with the change and PASSES without it. Verify both directions yourself.
 
-Setup: `export GOFLAGS=-mod=mod GOPROXY=off GOSUMDB=off GOTOOLCHAIN=local` in EVERY shell call. `git -C /repo worktree add --detach /tmp/seed-{pid}{suffix} HEAD` and work only there. `git status` there shows 7 pre-existing modified fixture files: ignore them, never include them in a diff. The machine is shared: be frugal (`-run` filters, `-p 4`).
+Setup: `export GOFLAGS=-mod=mod GOPROXY=off GOSUMDB=off GOTOOLCHAIN=local` in EVERY shell call. `git -C /repo worktree add --detach /tmp/seed-{pid}{suffix} HEAD` and work only there. `git status` there shows 7 pre-existing modified fixture files: ignore them, never include them in a diff. The machine is shared: be frugal (`-run` filters, `-p 4`). NEVER use `git stash` (the stash is shared by all worktrees of /repo and other agents work in parallel): to set a change aside use `git diff > /tmp/x.diff; git checkout -- <files>; git apply /tmp/x.diff`.
 
 Deliver, for each mutant x in {{a,b}}, a directory /tmp/seedout/{pid}{suffix}{{x}}/ containing:
  - patch.diff  — `git diff -- <the source files you changed>` (source change only; must apply with `git apply` on a clean checkout of HEAD; no test files inside);
